@@ -661,6 +661,13 @@ func poolCount(p *config.Pool) (int64, int64, int64) {
 		} else {
 			ipv4 += sz
 		}
+		// An enormous range met earlier saturates the counts: keep them saturated.
+		if total < 0 {
+			total = math.MaxInt64
+		}
+		if ipv6 < 0 {
+			ipv6 = math.MaxInt64
+		}
 	}
 	return total, ipv4, ipv6
 }
